@@ -26,3 +26,31 @@ package receiver
 //@   requires 0 <= fileLen && fileLen <= 1099511627776
 //@   modifies rsyncwire.CountingWriter.BytesWritten, rsyncwire.CountingReader.BytesRead
 //@   loop 0: invariant remaining >= 0 && i >= 0
+
+// ---------------------------------------------------------------- effects
+// C05: every file-system effect of a receiver method goes through
+//      rt.DestRoot (the traversal-resistant *os.Root of the destination).
+// C10: with DryRun set, no file-system write effect at all.
+// C04: the only write effects on listed paths are via the pending file /
+//      SymlinkRoot / metadata calls on the root (same obligations as C05).
+
+//@ default (*receiver.Transfer).
+//@   allows[C05,C04] fswrite(h) if h == rt.DestRoot
+//@   allows[C05,C04] fsread(h) if h == rt.DestRoot
+//@   allows[C05] pathwrite(p) if procFdUnder(p, rt.DestRoot)
+//@   allows[C10] fswrite(h) if !rt.Opts.DryRun
+//@   allows[C10] pathwrite(p) if !rt.Opts.DryRun
+//@   allows[C10] fsread(h)
+
+//@ func (*receiver.Transfer).openLocalFile
+//@   modifies f.Mode
+//@   ensures [root] err == nil && result != nil ==> fileRoot(result) == rt.DestRoot
+//@   ensures err != nil ==> result == nil
+
+//@ func (*receiver.Transfer).receiveData
+//@   requires [basis-root] localFile == nil || fileRoot(localFile) == rt.DestRoot
+//@   nullable localFile
+//@   modifies *
+
+//@ func (*receiver.Transfer).createDevice
+//@   nullable st
